@@ -134,6 +134,10 @@ def excel_rows(source_path, sheet=1):
     assert sheet >= 1, "sheet=%r" % sheet
 
     location = errors.Location(source_path, has_cell=True)
+    with open(source_path, "rb"):
+        # Fail early with an environment error in case the file cannot be read at all; any OSError later on stems from
+        # a broken container, for example a zip archive with a damaged central directory.
+        pass
     try:
         with xlrd.open_workbook(source_path) as book:
             if sheet > book.nsheets:
@@ -153,10 +157,11 @@ def excel_rows(source_path, sheet=1):
         raise errors.DataFormatError("cannot read Excel file: %s" % error, location)
     except UnicodeError as error:
         raise errors.DataFormatError("cannot decode Excel data: %s" % error, location)
-    except (errors.CutplaceError, OSError):
+    except errors.CutplaceError:
         raise
     except Exception as error:
-        # A broken container makes xlrd and zipfile fail in many ways, e.g. BadZipFile, struct.error or IndexError.
+        # A broken container makes xlrd and zipfile fail in many ways, e.g. BadZipFile, struct.error, IndexError or
+        # OSError (invalid argument for seek()).
         raise errors.DataFormatError("cannot read Excel file: %s: %s" % (type(error).__name__, error), location)
 
 
